@@ -327,8 +327,8 @@ PATH_MODELS = [
     (rx(r"^Vec::<Component<'_>>::push$"), m_vec_push),
     (rx(r"^Vec::<Component<'_>>::is_empty$"), m_vec_is_empty),
     (rx(r"^<Vec<Component<'_>> as Extend<Component<'_>>>::extend::<&mut Components<'_>>$"), m_vec_extend_components),
-    (rx(r"^core::slice::<impl \[Component<'_>\]>::iter$"), m_slice_iter),
-    (rx(r"^<std::slice::Iter<'_, Component<'_>> as Iterator>::collect::<PathBuf>$"), m_collect_pathbuf),
+    (rx(r"^(?:core::slice::)?<impl \[Component<'_>\]>::iter$"), m_slice_iter),
+    (rx(r"^<(?:std::slice::)?Iter<'_, Component<'_>> as Iterator>::collect::<PathBuf>$"), m_collect_pathbuf),
     (rx(r"^<&Path as PartialEq>::ne$"), m_path_ne),
     (rx(r"^<&Path as PartialEq>::eq$"), m_path_eq),
     (rx(r"^<Path as ToOwned>::to_owned$"), m_to_owned),
@@ -551,26 +551,26 @@ def make_env_models(env):
     return [
         (rx(r"^(std::env::)?var::<&str>$"), m_var),
         (rx(r"^<PathBuf as From<(String|&str)>>::from$"), m_pathbuf_from_str),
-        (rx(r"^<Path as sys::fs::path::PathExt>::mash::<&str>$"), m_mash),
+        (rx(r"^<Path as (?:sys::fs::path::)?PathExt>::mash::<&str>$"), m_mash),
         (rx(r"^<Result<.*> as Try>::branch$"), m_try_branch),
         (rx(r"^<Result<.*> as FromResidual<Result<Infallible, .*>>>::from_residual$"), m_from_residual),
         (rx(r"^Box::<\[PathBuf; \d+\]>::new_uninit$"), m_new_uninit),
-        (rx(r"^std::boxed::box_assume_init_into_vec_unsafe::<PathBuf, \d+>$"), m_into_vec),
+        (rx(r"^(?:std::boxed::)?box_assume_init_into_vec_unsafe::<PathBuf, \d+>$"), m_into_vec),
         (rx(r"^<.* as AsRef<str>>::as_ref$"), m_str_as_ref),
         (rx(r"^core::str::<impl str>::split::<char>$"), m_split),
-        (rx(r"^<std::str::Split<'_, char> as IntoIterator>::into_iter$"), m_identity),
-        (rx(r"^<std::str::Split<'_, char> as Iterator>::next$"), m_split_next),
+        (rx(r"^<(?:std::str::)?Split<'_, char> as IntoIterator>::into_iter$"), m_identity),
+        (rx(r"^<(?:std::str::)?Split<'_, char> as Iterator>::next$"), m_split_next),
         (rx(r"^core::str::<impl str>::is_empty$"), m_str_is_empty),
         (rx(r"^Vec::<PathBuf>::new$"), m_vec_new),
         (rx(r"^Vec::<PathBuf>::push$"), m_vec_push),
         (rx(r"^Vec::<PathBuf>::is_empty$"), m_vec_is_empty),
         (rx(r"^Vec::<PathBuf>::insert$"), m_vec_insert),
         (rx(r"^<Vec<PathBuf> as IntoIterator>::into_iter$"), m_vec_into_iter),
-        (rx(r"^<std::vec::IntoIter<PathBuf> as Iterator>::next$"), m_vec_iter_next),
+        (rx(r"^<(?:std::vec::)?IntoIter<PathBuf> as Iterator>::next$"), m_vec_iter_next),
         (rx(r"^<PathBuf as Deref>::deref$"), m_deref),
         (rx(r"^<String as Deref>::deref$"), m_string_deref),
         (rx(r"^core::str::<impl str>::parse::<u32>$"), m_parse_u32),
-        (rx(r"^<memfs::vfs::Memfs as sys::fs::vfs::VirtualFileSystem>::exists::<PathBuf>$"), m_exists),
+        (rx(r"^<(?:memfs::vfs::)?Memfs as (?:sys::fs::vfs::)?VirtualFileSystem>::exists::<PathBuf>$"), m_exists),
         (rx(r"^stdfs::Stdfs::exists::<PathBuf>$"), m_exists),
     ]
 
@@ -652,12 +652,206 @@ def make_chmod_models():
         (rx(r"^Vec::<char>::is_empty$"), m_vec_is_empty),
         (rx(r"^Option::<char>::unwrap$"), m_unwrap),
         (rx(r"^<str as ToString>::to_string$"), m_to_string),
-        (rx(r"^<errors::vfs::VfsError as Into<RvError>>::into$"), m_into),
-        (rx(r"^<sys::fs::entry::VfsEntry as sys::fs::entry::Entry>::mode$"), m_entry("mode")),
-        (rx(r"^<sys::fs::entry::VfsEntry as sys::fs::entry::Entry>::is_symlink$"), m_entry("is_symlink")),
-        (rx(r"^<sys::fs::entry::VfsEntry as sys::fs::entry::Entry>::is_dir$"), m_entry("is_dir")),
-        (rx(r"^<sys::fs::entry::VfsEntry as sys::fs::entry::Entry>::is_file$"), m_entry("is_file")),
+        (rx(r"^<(?:errors::vfs::)?VfsError as Into<RvError>>::into$"), m_into),
+        (rx(r"^<(?:sys::fs::entry::)?VfsEntry as (?:sys::fs::entry::)?Entry>::mode$"), m_entry("mode")),
+        (rx(r"^<(?:sys::fs::entry::)?VfsEntry as (?:sys::fs::entry::)?Entry>::is_symlink$"), m_entry("is_symlink")),
+        (rx(r"^<(?:sys::fs::entry::)?VfsEntry as (?:sys::fs::entry::)?Entry>::is_dir$"), m_entry("is_dir")),
+        (rx(r"^<(?:sys::fs::entry::)?VfsEntry as (?:sys::fs::entry::)?Entry>::is_file$"), m_entry("is_file")),
         (rx(r"^<State as PartialEq>::eq$"), m_state_eq),
         (rx(r"^<Result<.*> as Try>::branch$"), m_try_branch_generic),
         (rx(r"^<Result<.*> as FromResidual<Result<Infallible, .*>>>::from_residual$"), m_from_residual_generic),
+    ]
+
+
+# ================================================================================================
+# Text model: a &str / String is a sequence of chars of concrete length whose code points are
+# symbolic BV32 values.  Byte offsets are computed from UTF-8 lengths, so byte-index slicing is
+# faithful for multi-byte characters (`is_char_boundary` panics included).
+# ================================================================================================
+class SStr:
+    immutable = True
+
+    def __init__(self, chars):
+        self.chars = list(chars)
+
+    def __repr__(self):
+        return "SStr(%d)" % len(self.chars)
+
+
+def utf8_len(c):
+    """UTF-8 length of a char (BV32) as a BV64 term."""
+    if c.concrete:
+        v = c.v
+        return BV(64, False, 1 if v < 0x80 else 2 if v < 0x800 else 3 if v < 0x10000 else 4)
+    t = c.smt()
+    return BV(64, False, "(ite (bvult %s #x00000080) (_ bv1 64) (ite (bvult %s #x00000800) (_ bv2 64) "
+                         "(ite (bvult %s #x00010000) (_ bv3 64) (_ bv4 64))))" % (t, t, t))
+
+
+def bv_sum(xs, w=64):
+    from .values import bv_bin
+    acc = BV(w, False, 0)
+    for x in xs:
+        acc = bv_bin("Add", acc, x)
+    return acc
+
+
+def sstr_of(ex, st, v):
+    v = _obj(ex, st, v)
+    if isinstance(v, SStr):
+        return v
+    if isinstance(v, Str) and v.s is not None:
+        return SStr([BV(32, False, ord(ch)) for ch in v.s])
+    raise Unsupported("not a text value: %r" % (v,))
+
+
+def chars_eq(a, b):
+    from .values import bv_bin
+    return b_and(*[bv_bin("Eq", x, y) for x, y in zip(a, b)])
+
+
+def ascii_lower(c):
+    if c.concrete:
+        return BV(32, False, c.v + 32 if 65 <= c.v <= 90 else c.v)
+    t = c.smt()
+    return BV(32, False, "(ite (and (bvuge %s #x00000041) (bvule %s #x0000005a)) (bvadd %s #x00000020) %s)" % (t, t, t, t))
+
+
+def make_text_models():
+    from .values import bv_bin
+
+    def m_chars(ex, st, args, callee, ty):
+        return VecM(sstr_of(ex, st, args[0]).chars)
+
+    def m_count(ex, st, args, callee, ty):
+        return BV(64, False, len(args[0].items))
+
+    def m_len(ex, st, args, callee, ty):
+        return bv_sum([utf8_len(c) for c in sstr_of(ex, st, args[0]).chars])
+
+    def m_is_empty(ex, st, args, callee, ty):
+        return B(len(sstr_of(ex, st, args[0]).chars) == 0)
+
+    def m_into_string(ex, st, args, callee, ty):
+        return sstr_of(ex, st, args[0])
+
+    def m_ends_with(ex, st, args, callee, ty):
+        s, t = sstr_of(ex, st, args[0]), sstr_of(ex, st, args[1])
+        if len(t.chars) > len(s.chars):
+            return B(False)
+        if not t.chars:
+            return B(True)
+        return chars_eq(s.chars[len(s.chars) - len(t.chars):], t.chars)
+
+    def m_starts_with(ex, st, args, callee, ty):
+        s, t = sstr_of(ex, st, args[0]), sstr_of(ex, st, args[1])
+        if len(t.chars) > len(s.chars):
+            return B(False)
+        if not t.chars:
+            return B(True)
+        return chars_eq(s.chars[:len(t.chars)], t.chars)
+
+    def m_contains(ex, st, args, callee, ty):
+        s, t = sstr_of(ex, st, args[0]), sstr_of(ex, st, args[1])
+        n, k = len(s.chars), len(t.chars)
+        if k > n:
+            return B(False)
+        return b_or(*[chars_eq(s.chars[i:i + k], t.chars) if k else B(True) for i in range(n - k + 1)])
+
+    def boundary(ex, st, s, idx, what):
+        """number of chars before byte offset idx; panics like std when idx is not a char boundary"""
+        for k in range(len(s.chars) + 1):
+            b = bv_sum([utf8_len(c) for c in s.chars[:k]])
+            if ex.decide(st, bv_bin("Eq", idx, b)):
+                return k
+        raise Panic("byte index is out of range or not a char boundary (%s)" % what)
+
+    def m_index_to(ex, st, args, callee, ty):
+        s = sstr_of(ex, st, args[0])
+        end = args[1].fields[0]
+        return SStr(s.chars[:boundary(ex, st, s, end, "str[..end]")])
+
+    def m_index_from(ex, st, args, callee, ty):
+        s = sstr_of(ex, st, args[0])
+        start = args[1].fields[0]
+        return SStr(s.chars[boundary(ex, st, s, start, "str[start..]"):])
+
+    def m_index_range(ex, st, args, callee, ty):
+        s = sstr_of(ex, st, args[0])
+        a, b = args[1].fields[0], args[1].fields[1]
+        i, j = boundary(ex, st, s, a, "str[a..b] start"), boundary(ex, st, s, b, "str[a..b] end")
+        if i > j:
+            raise Panic("slice index starts after it ends")
+        return SStr(s.chars[i:j])
+
+    def m_to_owned(ex, st, args, callee, ty):
+        return sstr_of(ex, st, args[0])
+
+    def finder(reverse):
+        def f(ex, st, args, callee, ty):
+            s, t = sstr_of(ex, st, args[0]), sstr_of(ex, st, args[1])
+            n, k = len(s.chars), len(t.chars)
+            order = range(n - k, -1, -1) if reverse else range(0, n - k + 1)
+            for i in order:
+                hit = chars_eq(s.chars[i:i + k], t.chars) if k else B(True)
+                if ex.decide(st, hit):
+                    return opt_some(ex, bv_sum([utf8_len(c) for c in s.chars[:i]]))
+            return opt_none(ex)
+        return f
+
+    def stripper(suffix):
+        def f(ex, st, args, callee, ty):
+            s, t = sstr_of(ex, st, args[0]), sstr_of(ex, st, args[1])
+            n, k = len(s.chars), len(t.chars)
+            if k > n:
+                return opt_none(ex)
+            part = s.chars[n - k:] if suffix else s.chars[:k]
+            if ex.decide(st, chars_eq(part, t.chars) if k else B(True)):
+                return opt_some(ex, SStr(s.chars[:n - k] if suffix else s.chars[k:]))
+            return opt_none(ex)
+        return f
+
+    def m_to_lowercase(ex, st, args, callee, ty):
+        s = sstr_of(ex, st, args[0])
+        for c in s.chars:
+            if not ex.decide(st, bv_bin("Lt", c, BV(32, False, 0x80))):
+                raise Unsupported("to_lowercase on a non-ASCII char (outside the stated bound)")
+        return SStr([ascii_lower(c) for c in s.chars])
+
+    def m_string_eq(ex, st, args, callee, ty):
+        s, t = sstr_of(ex, st, args[0]), sstr_of(ex, st, args[1])
+        if len(s.chars) != len(t.chars):
+            return B(False)
+        return chars_eq(s.chars, t.chars)
+
+    def m_deref(ex, st, args, callee, ty):
+        return _last_ref(ex, st, args[0]) if isinstance(args[0], (Ref, BoxRef)) else BoxRef(args[0])
+
+    return [
+        (rx(r"^core::str::<impl str>::chars$"), m_chars),
+        (rx(r"^<Chars<'_> as Iterator>::count$"), m_count),
+        (rx(r"^core::str::<impl str>::len$"), m_len),
+        (rx(r"^String::len$"), m_len),
+        (rx(r"^core::str::<impl str>::is_empty$"), m_is_empty),
+        (rx(r"^String::is_empty$"), m_is_empty),
+        (rx(r"^<T as Into<String>>::into$"), m_into_string),
+        (rx(r"^<.* as AsRef<str>>::as_ref$"), m_into_string),
+        (rx(r"^core::str::<impl str>::ends_with::<(&String|&str)>$"), m_ends_with),
+        (rx(r"^core::str::<impl str>::starts_with::<(&String|&str)>$"), m_starts_with),
+        (rx(r"^core::str::<impl str>::contains::<(&String|&str)>$"), m_contains),
+        (rx(r"^core::str::<impl str>::rfind::<(&String|&str)>$"), finder(True)),
+        (rx(r"^core::str::<impl str>::find::<(&String|&str)>$"), finder(False)),
+        (rx(r"^core::str::<impl str>::strip_suffix::<(&String|&str)>$"), stripper(True)),
+        (rx(r"^core::str::<impl str>::strip_prefix::<(&String|&str)>$"), stripper(False)),
+        (rx(r"^<(str|String) as Index<RangeTo<usize>>>::index$"), m_index_to),
+        (rx(r"^<(str|String) as Index<((?:std::ops::)?)?RangeFrom<usize>>>::index$"), m_index_from),
+        (rx(r"^<(str|String) as Index<((?:std::ops::)?)?Range<usize>>>::index$"), m_index_range),
+        (rx(r"^<(str|String) as ToOwned>::to_owned$"), m_to_owned),
+        (rx(r"^<str as ToString>::to_string$"), m_to_owned),
+        (rx(r"^<String as From<&str>>::from$"), m_to_owned),
+        (rx(r"^<String as Clone>::clone$"), m_to_owned),
+        (rx(r"^(core::)?str::<impl str>::to_lowercase$"), m_to_lowercase),
+        (rx(r"^<String as PartialEq<&str>>::eq$"), m_string_eq),
+        (rx(r"^<String as PartialEq>::eq$"), m_string_eq),
+        (rx(r"^<String as Deref>::deref$"), m_deref),
     ]
